@@ -23,6 +23,7 @@ class ProxyCircuit(object):
 
 class C19(Prop):
     id = "C19"
+    suite_family = ('c19', ('sample',))
     trace_module = "TraceC19"
     trace_cfg = "TraceC19.cfg"
     backends = ("py",)
